@@ -525,6 +525,11 @@ func showPath(p []graph.Node) string {
 // validPath checks that p is a simple walk from s to t in the model whose arc
 // weights sum to weight. It returns "" or the reason.
 func (m *model) validPath(p []graph.Node, s, t int, weight float64) string {
+	return m.validWalk(p, s, t, weight, true)
+}
+
+// validWalk is validPath with the simplicity requirement optional.
+func (m *model) validWalk(p []graph.Node, s, t int, weight float64, simple bool) string {
 	if len(p) == 0 {
 		return "empty path"
 	}
@@ -541,7 +546,7 @@ func (m *model) validPath(p []graph.Node, s, t int, weight float64) string {
 	var seen [256]bool
 	sum := 0.0
 	for i := 0; i < len(is); i++ {
-		if seen[is[i]] {
+		if seen[is[i]] && simple {
 			return fmt.Sprintf("node %d is repeated (path not simple)", m.ids[is[i]])
 		}
 		seen[is[i]] = true
